@@ -1,4 +1,6 @@
-(* C11 I/O fault containment. Statements only. *)
+(* C11 I/O fault containment. Statements only.
+   Three of the faults below used to be REFUTED by the faithful model; the code was repaired
+   (F9: commit e3d3ed5, F15: commit 20e4a83, F1: commit 62103db) and the model (Storage/Fault.v) follows it. *)
 Require Import Pearl.Base.Prelude Pearl.Storage.Model Pearl.Storage.Spec Pearl.Storage.Inv Pearl.Storage.Theorems
                Pearl.Storage.Fault Pearl.Storage.FaultProofs.
 
@@ -15,23 +17,76 @@ Theorem C11_dump_failure_keeps_log :
   forall (s : storage) (id : N), abs (dump_fails_on s id) = abs s.
 Proof. exact dump_failure_keeps_log. Qed.
 
-(* ... but containment is REFUTED by the faithful model (finding F9): the blob's acknowledged records are
-   not served for the rest of the session (the in-memory headers were moved out before the fallible call) *)
-Theorem C11_dump_failure_loses_records_refuted :
+(* ... and is contained: every read answers as before, in every state (the headers taken out of the in-memory
+   index while the file is written are put back when the write fails). Before commit e3d3ed5 of the code this
+   was refuted (finding F9: the blob's acknowledged records were not served for the rest of the session). *)
+Theorem C11_dump_failure_contained :
+  forall (s : storage) (id k : N),
+    get_latest_entry (dump_fails_on s id) k None = get_latest_entry s k None /\
+    abs (dump_fails_on s id) = abs s.
+Proof. exact dump_failure_contained. Qed.
+
+(* in fact the storage is as it was *)
+Theorem C11_dump_failure_changes_nothing :
+  forall (s : storage) (id : N), dump_fails_on s id = s.
+Proof. exact dump_fails_on_id. Qed.
+
+(* computed on a concrete history: the record stays readable after the failed dump of its blob *)
+Theorem C11_dump_failure_keeps_records :
   let s := fst (step 4 f_cfg (reach 4 f_cfg f_hist) OCloseActive) in
   get_latest_entry s 1 None = Found (mk_rec 1 7 false None 8 5 1) /\
-  get_latest_entry (dump_fails_on s 0) 1 None = NotFound /\
+  get_latest_entry (dump_fails_on s 0) 1 None = Found (mk_rec 1 7 false None 8 5 1) /\
   spec_read (abs (dump_fails_on s 0)) 1 = Found (mk_rec 1 7 false None 8 5 1).
-Proof. exact dump_failure_loses_records. Qed.
+Proof. exact dump_failure_keeps_records. Qed.
 
-(* REFUTED (finding F15): an fsync failure inside close_active_blob drops the whole active blob *)
-Theorem C11_close_fsync_failure_loses_blob_refuted :
+(* an fsync failure inside close_active_blob is contained: the blob is synced while it still is the active
+   one, so the error leaves the storage as it was -- hence every read and the log. Before commit 20e4a83 of
+   the code this was refuted (finding F15: the whole active blob was dropped). *)
+Theorem C11_close_fsync_failure_contained :
+  forall (s : storage), close_active_fsync_fails s = s.
+Proof. exact close_fsync_failure_contained. Qed.
+
+(* computed on the same history: the record stays readable after the failed close, the blob stays active *)
+Theorem C11_close_fsync_failure_keeps_blob :
   let s := reach 4 f_cfg f_hist in
   get_latest_entry s 2 None = Found (mk_rec 2 7 false None 8 5 2) /\
-  get_latest_entry (close_active_fsync_fails s) 2 None = NotFound /\ abs (close_active_fsync_fails s) = [].
-Proof. exact close_fsync_failure_loses_blob. Qed.
+  get_latest_entry (close_active_fsync_fails s) 2 None = Found (mk_rec 2 7 false None 8 5 2) /\
+  abs (close_active_fsync_fails s) = abs s /\ length (abs (close_active_fsync_fails s)) = 2%nat /\
+  s_active (close_active_fsync_fails s) = s_active s.
+Proof. exact close_fsync_failure_keeps_blob. Qed.
+
+(* a failed blob creation while the worker rotates is contained: one blob id is used up, nothing else -- the
+   log, the reads and the worker are as before and the ids stay fresh. Before commit 62103db of the code the
+   worker panicked (finding F1). *)
+Theorem C11_rotation_failure_contained :
+  forall (s : storage) (k : N),
+    abs (rotation_create_fails s) = abs s /\
+    get_latest_entry (rotation_create_fails s) k None = get_latest_entry s k None /\
+    s_alive (rotation_create_fails s) = s_alive s /\
+    (IdsOk s -> IdsOk (rotation_create_fails s)).
+Proof. exact rotation_failure_contained. Qed.
+
+(* the whole invariant of C03 survives it *)
+Theorem C11_rotation_failure_keeps_invariant :
+  forall (K : N) (s : storage), Inv K s -> Inv K (rotation_create_fails s).
+Proof. exact rotation_failure_Inv. Qed.
+
+(* computed: after the failed rotation both records are served, the worker lives, the next write lands *)
+Theorem C11_rotation_failure_keeps_going :
+  let s := rotation_create_fails (reach 4 f_cfg f_hist) in
+  get_latest_entry s 1 None = Found (mk_rec 1 7 false None 8 5 1) /\
+  get_latest_entry s 2 None = Found (mk_rec 2 7 false None 8 5 2) /\
+  s_alive s = true /\ s_next s = 2 /\
+  get_latest_entry (fst (step_q 4 f_cfg s (OWrite 3 7 None 8 5 3))) 3 None = Found (mk_rec 3 7 false None 8 5 3).
+Proof. exact rotation_failure_keeps_going. Qed.
 
 Print Assumptions C11_append_failure_contained.
 Print Assumptions C11_dump_failure_keeps_log.
-Print Assumptions C11_dump_failure_loses_records_refuted.
-Print Assumptions C11_close_fsync_failure_loses_blob_refuted.
+Print Assumptions C11_dump_failure_contained.
+Print Assumptions C11_dump_failure_changes_nothing.
+Print Assumptions C11_dump_failure_keeps_records.
+Print Assumptions C11_close_fsync_failure_contained.
+Print Assumptions C11_close_fsync_failure_keeps_blob.
+Print Assumptions C11_rotation_failure_contained.
+Print Assumptions C11_rotation_failure_keeps_invariant.
+Print Assumptions C11_rotation_failure_keeps_going.
